@@ -95,6 +95,14 @@ func (t vTotal) String() string {
 	return "(Some " + vU(t.v) + ")"
 }
 
+func vBoolList(xs []bool) string {
+	it := make([]string, len(xs))
+	for i, x := range xs {
+		it[i] = vBool(x)
+	}
+	return vList(it)
+}
+
 func vInts(xs []int) string {
 	it := make([]string, len(xs))
 	for i, x := range xs {
@@ -121,48 +129,34 @@ func vGenTotal(r *vRand) vTotal {
 	return vTotal{true, r.U64()}
 }
 
-func vGenIntervals(r *vRand, c *Config, valid bool) {
+func vGenIntervals(r *vRand, c *Config) {
 	if r.Intn(8) == 0 { // the documented defaults
 		c.MinGCIntervalWhenSoftLimited = 10 * time.Second
 		c.MinGCIntervalWhenHardLimited = 0
-	} else {
-		h := []int64{-5, 0, 0, 0, 1, 2, 5}[r.Intn(7)]
-		s := h + []int64{0, 0, 1, 3, 10}[r.Intn(5)]
-		c.MinGCIntervalWhenHardLimited = time.Duration(h * vMin)
-		c.MinGCIntervalWhenSoftLimited = time.Duration(s * vMin)
+		return
 	}
-	if !valid && r.Intn(5) == 0 {
-		c.MinGCIntervalWhenSoftLimited = c.MinGCIntervalWhenHardLimited - time.Duration((1+int64(r.Intn(3)))*vMin)
-	}
+	h := []int64{-5, 0, 0, 0, 1, 2, 5}[r.Intn(7)]
+	s := h + []int64{0, 0, 1, 3, 10}[r.Intn(5)]
+	c.MinGCIntervalWhenHardLimited = time.Duration(h * vMin)
+	c.MinGCIntervalWhenSoftLimited = time.Duration(s * vMin)
 }
 
-// vGenConfig: valid = aimed at being accepted by Validate (not guaranteed; the class is observed).
+// vGenConfig: a configuration accepted by Validate (by construction); with valid = false one
+// corruption is applied, aimed at one of the six errors of Validate (the class is observed, not assumed).
 func vGenConfig(r *vRand, valid bool) *Config {
 	c := &Config{CheckInterval: time.Hour}
-	if !valid && r.Intn(4) == 0 {
-		c.CheckInterval = []time.Duration{0, -1, -time.Hour}[r.Intn(3)]
-	}
-	vGenIntervals(r, c, valid)
+	vGenIntervals(r, c)
 	mode := r.Pick(50, 35, 15) // fixed, percentage, both
 	if mode == 0 || mode == 2 {
 		lim := []uint32{1, 2, 5, 6, 10, 100, 1000, 4095, 1 << 31, ^uint32(0), uint32(1 + r.Intn(1<<16))}[r.Intn(11)]
 		c.MemoryLimitMiB = lim
-		switch r.Pick(30, 50, 10, 10) {
-		case 0:
-			c.MemorySpikeLimitMiB = 0
+		switch r.Pick(30, 55, 15) {
 		case 1:
 			if lim > 1 {
 				c.MemorySpikeLimitMiB = 1 + uint32(r.U64()%uint64(lim-1))
 			}
 		case 2:
 			c.MemorySpikeLimitMiB = lim - 1
-		case 3:
-			if !valid {
-				c.MemorySpikeLimitMiB = lim + uint32(r.Intn(3)) // == limit, or above (may wrap to 0/1 at 2^32-1)
-				if c.MemorySpikeLimitMiB < lim && r.Bool() {
-					c.MemorySpikeLimitMiB = ^uint32(0)
-				}
-			}
 		}
 	}
 	if mode == 1 || mode == 2 {
@@ -171,29 +165,50 @@ func vGenConfig(r *vRand, valid bool) *Config {
 			lp = 100
 		}
 		c.MemoryLimitPercentage = lp
-		switch r.Pick(30, 50, 10, 10) {
-		case 0:
-			c.MemorySpikePercentage = 0
+		switch r.Pick(30, 55, 15) {
 		case 1:
 			if lp > 1 {
 				c.MemorySpikePercentage = 1 + uint32(r.Intn(int(lp-1)))
 			}
 		case 2:
 			c.MemorySpikePercentage = lp - 1
-		case 3:
-			if !valid {
-				c.MemorySpikePercentage = lp + uint32(r.Intn(3))
-			}
-		}
-		if !valid && r.Intn(5) == 0 {
-			c.MemoryLimitPercentage = 101 + uint32(r.Intn(200))
-		}
-		if !valid && r.Intn(8) == 0 {
-			c.MemorySpikePercentage = 101 + uint32(r.Intn(200))
 		}
 	}
-	if !valid && r.Intn(6) == 0 {
+	if valid {
+		return c
+	}
+	switch r.Intn(8) {
+	case 0:
+		c.CheckInterval = []time.Duration{0, -1, -time.Hour}[r.Intn(3)]
+	case 1:
+		c.MinGCIntervalWhenSoftLimited = c.MinGCIntervalWhenHardLimited - time.Duration((1+int64(r.Intn(3)))*vMin)
+	case 2:
 		c.MemoryLimitMiB, c.MemoryLimitPercentage = 0, 0
+		if r.Bool() {
+			c.MemorySpikeLimitMiB, c.MemorySpikePercentage = uint32(r.Intn(5)), uint32(r.Intn(5))
+		}
+	case 3:
+		if r.Bool() {
+			c.MemoryLimitPercentage = 101 + uint32(r.Intn(200))
+		} else {
+			c.MemorySpikePercentage = 101 + uint32(r.Intn(200))
+		}
+	case 4, 5: // spike_limit_mib >= limit_mib (uint32 wrap at 2^32-1 possible: then it may stay valid)
+		if c.MemoryLimitMiB == 0 {
+			c.MemoryLimitMiB = uint32(1 + r.Intn(1000))
+		}
+		c.MemorySpikeLimitMiB = c.MemoryLimitMiB + uint32(r.Intn(3))
+		if r.Intn(4) == 0 {
+			c.MemorySpikeLimitMiB = ^uint32(0)
+		}
+	default: // spike percentage >= limit percentage
+		if c.MemoryLimitPercentage == 0 {
+			c.MemoryLimitPercentage = uint32(1 + r.Intn(99))
+		}
+		c.MemorySpikePercentage = c.MemoryLimitPercentage + uint32(r.Intn(3))
+		if c.MemorySpikePercentage > 100 {
+			c.MemorySpikePercentage = c.MemoryLimitPercentage
+		}
 	}
 	return c
 }
@@ -244,7 +259,7 @@ func vNew(c *Config, total vTotal, logger *zap.Logger) (ml *MemoryLimiter, outco
 func vConfigCases(out *vOut, r *vRand, n int) {
 	two64 := new(big.Int).Lsh(big.NewInt(1), 64)
 	for i := 0; i < n; i++ {
-		valid := r.Intn(100) < 70
+		valid := r.Intn(100) < 62
 		c := vGenConfig(r, valid)
 		total := vGenTotal(r)
 		class := vValidateClass(c.Validate())
@@ -254,7 +269,7 @@ func vConfigCases(out *vOut, r *vRand, n int) {
 			ml.ticker.Stop()
 			chk = "(Some " + vPair(vU(ml.usageChecker.memAllocLimit), vU(ml.usageChecker.memSpikeLimit)) + ")"
 		}
-		term := fmt.Sprintf("CConfig %s %s %d %d %s", vCfg(c), total, class, outcome, chk)
+		term := fmt.Sprintf("(CConfig %s %s %d %d %s)", vCfg(c), total, class, outcome, chk)
 		out.Case(outcome == 2, term)
 		out.Stat(fmt.Sprintf("config.validate_class_%d", class), 1)
 		out.Stat(fmt.Sprintf("config.new_outcome_%d", outcome), 1)
@@ -266,6 +281,15 @@ func vConfigCases(out *vOut, r *vRand, n int) {
 		// direct oracle: a validated configuration (percentage mode: 100*total < 2^64) gives
 		// spike <= limit, limit/spike equal to the unbounded-integer values, default spike = limit/5
 		if class == 0 {
+			// the documented rules, restated independently of Validate
+			okDoc := c.CheckInterval > 0 && c.MinGCIntervalWhenSoftLimited >= c.MinGCIntervalWhenHardLimited &&
+				(c.MemoryLimitMiB > 0 || c.MemoryLimitPercentage > 0) &&
+				c.MemoryLimitPercentage <= 100 && c.MemorySpikePercentage <= 100 &&
+				(c.MemoryLimitMiB == 0 || c.MemorySpikeLimitMiB < c.MemoryLimitMiB) &&
+				(c.MemoryLimitPercentage == 0 || c.MemorySpikePercentage < c.MemoryLimitPercentage)
+			if !okDoc {
+				out.Oracle("validate-accepts-bad-config", term, "Validate() = nil for a configuration that breaks a documented rule")
+			}
 			if outcome == 1 {
 				out.Oracle("validated-config-panics", term, "NewMemoryLimiter panicked on a validated configuration")
 			}
@@ -315,6 +339,131 @@ func vReadingPool(r *vRand, limit, spike uint64) []uint64 {
 	return p
 }
 
+// vRunner drives one real MemoryLimiter (not started; its ticker is stopped) check by check.
+type vRunner struct {
+	out          *vOut
+	c            *Config
+	total        vTotal
+	ml           *MemoryLimiter
+	mu           sync.Mutex
+	ev           []int
+	r1, r2       uint64
+	reads, gcs   int
+	lastGCv      int64 // virtual clock (ns); construction at 0
+	ticks, obs   []string
+	limit, spike uint64
+}
+
+func vNewRunner(out *vOut, c *Config, total vTotal) *vRunner {
+	x := &vRunner{out: out, c: c, total: total}
+	ml, outcome := vNew(c, total, zap.New(vLogCore{&x.mu, &x.ev}))
+	if outcome != 2 {
+		return nil
+	}
+	ml.ticker.Stop()
+	x.ml = ml
+	x.limit, x.spike = ml.usageChecker.memAllocLimit, ml.usageChecker.memSpikeLimit
+	ml.readMemStatsFn = func(ms *runtime.MemStats) {
+		if x.reads == 0 {
+			ms.Alloc = x.r1
+		} else {
+			ms.Alloc = x.r2
+		}
+		x.reads++
+	}
+	ml.runGCFn = func() {
+		x.gcs++
+		x.mu.Lock()
+		x.ev = append(x.ev, 0)
+		x.mu.Unlock()
+	}
+	return x
+}
+
+func (x *vRunner) term() string {
+	return fmt.Sprintf("(CRun %s %s %s %s)", vCfg(x.c), x.total, vList(x.ticks), vList(x.obs))
+}
+
+// step: one CheckMemLimits with first reading r1, post-GC reading r2, `elapsed` ns after the last forced GC.
+// Returns whether a GC was forced.
+func (x *vRunner) step(r1, r2 uint64, elapsed int64) bool {
+	out, ml := x.out, x.ml
+	hi, si := int64(x.c.MinGCIntervalWhenHardLimited), int64(x.c.MinGCIntervalWhenSoftLimited)
+	x.r1, x.r2 = r1, r2
+	now := x.lastGCv + elapsed
+	set := time.Now().Add(-time.Duration(elapsed))
+	ml.lastGCDone = set
+	x.reads, x.gcs = 0, 0
+	x.mu.Lock()
+	x.ev = x.ev[:0]
+	x.mu.Unlock()
+	before := ml.MustRefuse()
+	ml.CheckMemLimits()
+	refuse := ml.MustRefuse()
+	rewritten := !ml.lastGCDone.Equal(set)
+	x.mu.Lock()
+	evs := append([]int(nil), x.ev...)
+	x.mu.Unlock()
+	gcs := x.gcs
+	for _, e := range evs {
+		out.Stat(fmt.Sprintf("run.event_%d", e), 1)
+	}
+	x.ticks = append(x.ticks, fmt.Sprintf("(%s, %s, %s)", vZ(now), vU(r1), vU(r2)))
+	x.obs = append(x.obs, fmt.Sprintf("(%s, %d, %s, %s)", vBool(refuse), gcs, vBool(rewritten), vInts(evs)))
+	// ---- direct oracle
+	limit, spike := x.limit, x.spike
+	soft := limit - spike
+	sev := "below"
+	due := false
+	if r1 >= soft {
+		sev = "soft"
+		due = elapsed > si
+		if r1 >= limit {
+			sev = "hard"
+			due = elapsed > hi
+		}
+	}
+	out.Stat("run.first_reading_"+sev, 1)
+	out.Stat(fmt.Sprintf("run.gc_calls_%d", gcs), 1)
+	if r1 >= soft && !due {
+		out.Stat("run.gc_throttled_"+sev, 1)
+	}
+	if before != refuse {
+		out.Stat(fmt.Sprintf("run.mode_switch_to_%v", refuse), 1)
+	}
+	detail := fmt.Sprintf("limit=%d spike=%d r1=%d r2=%d elapsed=%d soft_int=%d hard_int=%d gcs=%d refuse=%v", limit, spike, r1, r2, elapsed, si, hi, gcs, refuse)
+	if spike <= limit {
+		final := r1
+		if gcs > 0 {
+			final = r2
+		}
+		if refuse != (final >= soft) {
+			out.Oracle("refuse-iff-soft", x.term(), detail)
+		}
+		if gcs > 0 && !due {
+			out.Oracle("gc-when-not-due", x.term(), detail)
+		}
+		if gcs == 0 && due {
+			out.Oracle("gc-missing-when-due", x.term(), detail)
+		}
+	} else {
+		out.Stat("run.wrapped_soft_limit_checks", 1)
+	}
+	if gcs > 1 {
+		out.Oracle("gc-more-than-once", x.term(), detail)
+	}
+	if rewritten != (gcs > 0) {
+		out.Oracle("lastgc-update", x.term(), detail+fmt.Sprintf(" rewritten=%v", rewritten))
+	}
+	if elapsed < 0 {
+		out.Stat("run.clock_before_last_gc", 1)
+	}
+	if gcs > 0 {
+		x.lastGCv = now
+	}
+	return gcs > 0
+}
+
 func vRunCases(out *vOut, r *vRand, n int) {
 	for i := 0; i < n; i++ {
 		valid := r.Intn(100) < 85
@@ -324,116 +473,74 @@ func vRunCases(out *vOut, r *vRand, n int) {
 		if r.Intn(4) != 0 && total.ok && total.v > ^uint64(0)/100 {
 			total.v = uint64(1) << (24 + uint(r.Intn(20)))
 		}
-		var mu sync.Mutex
-		var ev []int
-		logger := zap.New(vLogCore{&mu, &ev})
-		ml, outcome := vNew(c, total, logger)
-		if outcome != 2 {
+		x := vNewRunner(out, c, total)
+		if x == nil {
 			out.Stat("run.no_limiter", 1)
 			continue
 		}
-		ml.ticker.Stop()
-		limit, spike := ml.usageChecker.memAllocLimit, ml.usageChecker.memSpikeLimit
-		noWrap := spike <= limit
 		hi, si := int64(c.MinGCIntervalWhenHardLimited), int64(c.MinGCIntervalWhenSoftLimited)
-		var r1, r2 uint64
-		reads, gcs := 0, 0
-		ml.readMemStatsFn = func(ms *runtime.MemStats) {
-			if reads == 0 {
-				ms.Alloc = r1
-			} else {
-				ms.Alloc = r2
-			}
-			reads++
-		}
-		ml.runGCFn = func() {
-			gcs++
-			mu.Lock()
-			ev = append(ev, 0)
-			mu.Unlock()
-		}
 		nticks := 1 + r.Intn(20)
-		var ticks, obs []string
-		var lastGCv, elapsedMin int64 // virtual clock: construction at 0
+		var elapsedMin int64
 		for k := 0; k < nticks; k++ {
-			pool := vReadingPool(r, limit, spike)
-			r1, r2 = pool[r.Intn(len(pool))], pool[r.Intn(len(pool))]
+			pool := vReadingPool(r, x.limit, x.spike)
+			r1, r2 := pool[r.Intn(len(pool))], pool[r.Intn(len(pool))]
 			if r.Intn(3) == 0 && r2 > r1 { // a GC usually frees memory
 				r1, r2 = r2, r1
 			}
 			cands := []int64{elapsedMin, elapsedMin, elapsedMin + 1, hi/vMin - 1, hi / vMin, hi/vMin + 1, si/vMin - 1, si / vMin, si/vMin + 1, si/vMin + 5}
 			t := cands[r.Intn(len(cands))]
-			if t < elapsedMin {
+			if t < elapsedMin && r.Intn(10) != 0 { // mostly a monotone clock; sometimes it jumps back (even before the last GC)
 				t = elapsedMin
 			}
 			elapsedMin = t
-			elapsed := elapsedMin*vMin + int64(30*time.Second)
-			now := lastGCv + elapsed
-			set := time.Now().Add(-time.Duration(elapsed))
-			ml.lastGCDone = set
-			reads, gcs = 0, 0
-			mu.Lock()
-			ev = ev[:0]
-			mu.Unlock()
-			before := ml.MustRefuse()
-			ml.CheckMemLimits()
-			refuse := ml.MustRefuse()
-			rewritten := !ml.lastGCDone.Equal(set)
-			mu.Lock()
-			evs := append([]int(nil), ev...)
-			mu.Unlock()
-			ticks = append(ticks, fmt.Sprintf("(%s, %s, %s)", vZ(now), vU(r1), vU(r2)))
-			obs = append(obs, fmt.Sprintf("(%s, %d, %s, %s)", vBool(refuse), gcs, vBool(rewritten), vInts(evs)))
-			// ---- direct oracle
-			soft := limit - spike
-			sev := "below"
-			due := false
-			if r1 >= soft {
-				sev = "soft"
-				due = elapsed > si
-				if r1 >= limit {
-					sev = "hard"
-					due = elapsed > hi
-				}
-			}
-			out.Stat("run.first_reading_"+sev, 1)
-			out.Stat(fmt.Sprintf("run.gc_calls_%d", gcs), 1)
-			if before != refuse {
-				out.Stat(fmt.Sprintf("run.mode_switch_to_%v", refuse), 1)
-			}
-			detail := fmt.Sprintf("limit=%d spike=%d r1=%d r2=%d elapsed=%d soft_int=%d hard_int=%d gcs=%d refuse=%v", limit, spike, r1, r2, elapsed, si, hi, gcs, refuse)
-			cterm := fmt.Sprintf("CRun %s %s %s %s", vCfg(c), total, vList(ticks), vList(obs))
-			if noWrap {
-				final := r1
-				if gcs > 0 {
-					final = r2
-				}
-				if refuse != (final >= soft) {
-					out.Oracle("refuse-iff-soft", cterm, detail)
-				}
-				if gcs > 0 && !due {
-					out.Oracle("gc-when-not-due", cterm, detail)
-				}
-				if gcs == 0 && due {
-					out.Oracle("gc-missing-when-due", cterm, detail)
-				}
-			} else {
-				out.Stat("run.wrapped_soft_limit_checks", 1)
-			}
-			if gcs > 1 {
-				out.Oracle("gc-more-than-once", cterm, detail)
-			}
-			if rewritten != (gcs > 0) {
-				out.Oracle("lastgc-update", cterm, detail+fmt.Sprintf(" rewritten=%v", rewritten))
-			}
-			if gcs > 0 {
-				lastGCv = now
+			if x.step(r1, r2, elapsedMin*vMin+int64(30*time.Second)) {
 				elapsedMin = 0
 			}
 		}
-		out.Case(true, fmt.Sprintf("CRun %s %s %s %s", vCfg(c), total, vList(ticks), vList(obs)))
+		out.Case(true, x.term())
 		out.Stat("run.histories", 1)
 		out.Stat("run.checks", nticks)
+	}
+}
+
+// vRunGrid: EVERY combination of previous mode x first reading x post-GC reading x elapsed class,
+// as two-check histories (a priming check sets the mode, no GC is due in it).
+func vRunGrid(out *vOut) {
+	cfgs := []*Config{
+		{CheckInterval: time.Hour, MemoryLimitMiB: 100, MemorySpikeLimitMiB: 20, MinGCIntervalWhenHardLimited: time.Minute, MinGCIntervalWhenSoftLimited: 3 * time.Minute},
+		{CheckInterval: time.Hour, MemoryLimitPercentage: 75, MemorySpikePercentage: 25, MinGCIntervalWhenHardLimited: time.Minute, MinGCIntervalWhenSoftLimited: 3 * time.Minute},
+		{CheckInterval: time.Hour, MemoryLimitMiB: 5, MinGCIntervalWhenHardLimited: time.Minute, MinGCIntervalWhenSoftLimited: 3 * time.Minute},
+	}
+	full := vTier() != "quick"
+	if !full {
+		cfgs = cfgs[:1]
+	}
+	for _, c := range cfgs {
+		probe := vNewRunner(out, c, vTotal{true, 1 << 34})
+		limit, spike := probe.limit, probe.spike
+		soft := limit - spike
+		pool := []uint64{0, soft - 1, soft, soft + 1, soft + (limit-soft)/2, limit - 1, limit, limit + 1, ^uint64(0)}
+		r2s := pool
+		if !full {
+			r2s = []uint64{soft - 1, soft, limit}
+		}
+		for _, prev := range []bool{false, true} {
+			for _, r1 := range pool {
+				for _, r2 := range r2s {
+					for _, em := range []int64{0, 1, 3} { // 30 s < hard; hard < 1.5 min < soft; 3.5 min > both
+						x := vNewRunner(out, c, vTotal{true, 1 << 34})
+						prime := uint64(0)
+						if prev {
+							prime = soft
+						}
+						x.step(prime, prime, int64(30*time.Second))
+						x.step(r1, r2, em*vMin+int64(30*time.Second))
+						out.Case(true, x.term())
+						out.Stat("run.grid_histories", 1)
+					}
+				}
+			}
+		}
 	}
 }
 
@@ -455,11 +562,16 @@ func vClosed(ch chan struct{}) bool {
 
 // vChecking: do periodic checks happen right now?  Positive answers are polled for (generous
 // deadline), a negative answer is "at most one check in the window".
-func vChecking(cnt *atomic.Int64, expectHint bool) bool {
+func vChecking(cnt *atomic.Int64, expectHint bool, afterRestart ...bool) bool {
 	c0 := cnt.Load()
 	window := 15 * time.Millisecond
 	if expectHint {
 		window = 5 * time.Second
+		if len(afterRestart) > 0 && afterRestart[0] {
+			// regression region of the repaired defect C18-RESTART: still >1000 ticker periods, but a
+			// tree that reverts the fix does not cost 5 s per operation
+			window = 1500 * time.Millisecond
+		}
 	}
 	dl := time.Now().Add(window)
 	for time.Now().Before(dl) {
@@ -512,7 +624,7 @@ func vLifeOne(ops []bool) vLifeRes {
 		gor := ml.closed != nil && !vClosed(ml.closed)
 		ml.refCounterLock.Unlock()
 		// hint = what the specification expects, used only to choose the polling window
-		checking := vChecking(&cnt, users > 0 && restarts == 0)
+		checking := vChecking(&cnt, users > 0, restarts > 0)
 		opsT = append(opsT, vBool(start))
 		obsT = append(obsT, fmt.Sprintf("(%s, %s, %s, %s)", vBool(e != nil), vZ(int64(rc)), vBool(gor), vBool(checking)))
 		switch {
@@ -522,7 +634,7 @@ func vLifeOne(ops []bool) vLifeRes {
 			res.oracles = append(res.oracles, [3]string{"checker-stopped-with-users", "", fmt.Sprintf("users=%d restarts=%d", users, restarts)})
 		case users > 0 && !checking:
 			res.oracles = append(res.oracles, [3]string{"checker-dead-after-restart", "", fmt.Sprintf("users=%d restarts=%d checking=0", users, restarts)})
-			res.stats["life.known_region_restart_ops"]++
+			res.stats["life.restart_regression_failures"]++
 		}
 		if rc != users {
 			res.oracles = append(res.oracles, [3]string{"refcount", "", fmt.Sprintf("users=%d refCounter=%d", users, rc)})
@@ -535,10 +647,10 @@ func vLifeOne(ops []bool) vLifeRes {
 			res.stats["life.shutdown"]++
 		}
 	}
-	for ml.Shutdown(context.Background()) == nil { // clean up whatever is still running
+	for k := 0; k < 64 && ml.Shutdown(context.Background()) == nil; k++ { // clean up whatever is still running
 	}
 	ml.ticker.Stop()
-	res.term = fmt.Sprintf("CLife %s %s", vList(opsT), vList(obsT))
+	res.term = fmt.Sprintf("(CLife %s %s)", vList(opsT), vList(obsT))
 	for i := range res.oracles {
 		res.oracles[i][1] = res.term
 	}
@@ -584,6 +696,12 @@ func vLifeCases(out *vOut, r *vRand) {
 		go func(i int) {
 			defer wg.Done()
 			defer func() { <-sem }()
+			defer func() {
+				if e := recover(); e != nil {
+					results[i] = vLifeRes{term: fmt.Sprintf("(CLife %s [])", vBoolList(seqs[i])), stats: map[string]int{"life.panics": 1},
+						oracles: [][3]string{{"implementation-panics", fmt.Sprintf("(CLife %s [])", vBoolList(seqs[i])), fmt.Sprint(e)}}}
+				}
+			}()
 			results[i] = vLifeOne(seqs[i])
 		}(i)
 	}
@@ -673,11 +791,198 @@ func vLifeConcurrent(out *vOut, r *vRand) {
 	}
 }
 
+// ---- CSys: the limiter as a whole, driven by its REAL ticker ------------------------------------------
+//   ops: SStart | SShutdown | STick (mkTick 0 0 r r) = "usage becomes r, then wait for a periodic
+//   check that has seen it" | SQuery = MustRefuse().  Minimum GC intervals are one hour, so no GC is
+//   ever due and repeated checks with the same reading are idempotent.  A tick is observed as
+//   delivered when two further readMemStats calls happened (then one complete check has read r).
+type vSysRes struct {
+	term    string
+	nt      bool
+	oracles [][3]string
+	stats   map[string]int
+}
+
+func vSysOne(seed uint64, avoidRestart bool) vSysRes {
+	r := vNewRand(seed)
+	res := vSysRes{stats: map[string]int{}}
+	c := &Config{CheckInterval: time.Millisecond, MinGCIntervalWhenSoftLimited: time.Hour, MinGCIntervalWhenHardLimited: time.Hour}
+	c.MemoryLimitMiB = uint32(2 + r.Intn(2000))
+	if r.Bool() {
+		c.MemorySpikeLimitMiB = 1 + uint32(r.Intn(int(c.MemoryLimitMiB-1)))
+	}
+	ml, err := NewMemoryLimiter(c, zap.NewNop())
+	if err != nil {
+		panic(err)
+	}
+	var cnt, gcs atomic.Int64
+	var alloc atomic.Uint64
+	ml.readMemStatsFn = func(ms *runtime.MemStats) { cnt.Add(1); ms.Alloc = alloc.Load() }
+	ml.runGCFn = func() { gcs.Add(1) }
+	limit, spike := ml.usageChecker.memAllocLimit, ml.usageChecker.memSpikeLimit
+	soft := limit - spike
+	pool := []uint64{soft - 1, soft, soft + 1, limit - 1, limit, limit + 1, 0, ^uint64(0), soft / 2}
+	users, restarts := 0, 0
+	everStopped := false
+	var ops, obs []string
+	nops := 4 + r.Intn(11)
+	for k := 0; k < nops; k++ {
+		kind := r.Pick(25, 20, 40, 15)
+		if avoidRestart && kind == 1 && users == 1 && r.Bool() { // some scripts keep their users longer
+			kind = 2
+		}
+		if users == 0 && !everStopped && r.Intn(100) < 50 {
+			kind = 0
+		}
+		switch kind {
+		case 0, 1:
+			var e error
+			if kind == 0 {
+				if users == 0 && everStopped {
+					restarts++
+				}
+				e = ml.Start(context.Background(), nil)
+				users++
+				ops = append(ops, "SStart")
+			} else {
+				e = ml.Shutdown(context.Background())
+				if (e != nil) != (users == 0) {
+					res.oracles = append(res.oracles, [3]string{"shutdown-error-iff-not-started", "", fmt.Sprintf("users=%d err=%v", users, e)})
+				}
+				if e == nil {
+					users--
+					if users == 0 {
+						everStopped = true
+					}
+				}
+				ops = append(ops, "SShutdown")
+			}
+			obs = append(obs, "SLifeRes "+vBool(e != nil))
+		case 2:
+			rd := pool[r.Intn(len(pool))]
+			before := ml.MustRefuse()
+			alloc.Store(rd)
+			g0 := gcs.Load()
+			ticked := vChecking(&cnt, users > 0, restarts > 0)
+			refuse := ml.MustRefuse()
+			ops = append(ops, fmt.Sprintf("STick (mkTick 0%%Z 0%%Z %s %s)", vU(rd), vU(rd)))
+			if ticked {
+				obs = append(obs, fmt.Sprintf("STicked %s %d", vBool(refuse), gcs.Load()-g0))
+				res.nt = true
+				res.stats["sys.tick_delivered"]++
+			} else {
+				obs = append(obs, "SNoTick")
+				res.stats["sys.tick_not_delivered"]++
+			}
+			detail := fmt.Sprintf("users=%d restarts=%d reading=%d soft=%d ticked=%v refuse=%v", users, restarts, rd, soft, ticked, refuse)
+			switch {
+			case users > 0 && restarts == 0 && !ticked:
+				res.oracles = append(res.oracles, [3]string{"checker-stopped-with-users", "", detail})
+			case users > 0 && ticked && refuse != (rd >= soft):
+				res.oracles = append(res.oracles, [3]string{"refuse-iff-soft", "", detail})
+			case users == 0 && ticked:
+				res.oracles = append(res.oracles, [3]string{"checker-runs-without-users", "", detail})
+			case users == 0 && refuse != before:
+				res.oracles = append(res.oracles, [3]string{"mode-changed-without-users", "", detail})
+			case users > 0 && restarts > 0 && !ticked:
+				res.oracles = append(res.oracles, [3]string{"checker-dead-after-restart", "", fmt.Sprintf("users=%d restarts=%d checking=0", users, restarts)})
+				res.stats["sys.restart_regression_failures"]++
+			}
+		default:
+			ops = append(ops, "SQuery")
+			obs = append(obs, "SQueried "+vBool(ml.MustRefuse()))
+		}
+	}
+	for k := 0; k < 64 && ml.Shutdown(context.Background()) == nil; k++ {
+	}
+	ml.ticker.Stop()
+	res.term = fmt.Sprintf("(CSys %s None %s %s)", vCfg(c), vList(ops), vList(obs))
+	for i := range res.oracles {
+		res.oracles[i][1] = res.term
+	}
+	res.stats["sys.scripts"]++
+	if restarts > 0 {
+		res.stats["sys.scripts_with_restart"]++
+	}
+	return res
+}
+
+func vSysCases(out *vOut, r *vRand, n int) {
+	seeds := make([]uint64, n)
+	avoid := make([]bool, n)
+	for i := range seeds {
+		seeds[i] = r.U64()
+		avoid[i] = r.Intn(100) < 40
+	}
+	results := make([]vSysRes, n)
+	var wg sync.WaitGroup
+	sem := make(chan struct{}, 8)
+	for i := range seeds {
+		wg.Add(1)
+		sem <- struct{}{}
+		go func(i int) {
+			defer wg.Done()
+			defer func() { <-sem }()
+			defer func() {
+				if e := recover(); e != nil {
+					results[i] = vSysRes{term: "(CSys (mkConfig 0%Z 0%Z 0%Z 0%Z 0%Z 0%Z 0%Z) None [] [SNoTick])", stats: map[string]int{"sys.panics": 1},
+						oracles: [][3]string{{"implementation-panics", fmt.Sprintf("(CSys script seed %d)", seeds[i]), fmt.Sprint(e)}}}
+				}
+			}()
+			results[i] = vSysOne(seeds[i], avoid[i])
+		}(i)
+	}
+	wg.Wait()
+	for _, res := range results {
+		out.Case(res.nt, res.term)
+		for _, o := range res.oracles {
+			out.Oracle(o[0], o[1], o[2])
+		}
+		for k, v := range res.stats {
+			out.Stat(k, v)
+		}
+	}
+}
+
+// vWitnessReplay replays the recorded Coq witnesses on the implementation: limits_wellformed_refuted
+// (Proofs.v wrap_cfg / wrap_total: 2 % / 1 % of 2^63 bytes) — the limit wraps to 0, the spike does
+// not, and a terabyte of usage is not refused.  (The restart sequence [Start; Shutdown; Start] of the
+// repaired defect C18-RESTART is part of the exhaustive CLife enumeration: a regression input.)
+func vWitnessReplay(out *vOut) {
+	c := &Config{CheckInterval: time.Second, MemoryLimitPercentage: 2, MemorySpikePercentage: 1}
+	total := vTotal{true, 1 << 63}
+	class := vValidateClass(c.Validate())
+	ml, outcome := vNew(c, total, zap.NewNop())
+	if ml == nil {
+		out.Oracle("witness-replay", "limits_wellformed_refuted", "limiter not built")
+		return
+	}
+	ml.ticker.Stop()
+	out.Case(true, fmt.Sprintf("(CConfig %s %s %d %d (Some %s))", vCfg(c), total, class, outcome,
+		vPair(vU(ml.usageChecker.memAllocLimit), vU(ml.usageChecker.memSpikeLimit))))
+	ml.readMemStatsFn = func(ms *runtime.MemStats) { ms.Alloc = 1000000000000 }
+	gcs := 0
+	ml.runGCFn = func() { gcs++ }
+	set := time.Now().Add(-30 * time.Second)
+	ml.lastGCDone = set
+	ml.CheckMemLimits()
+	out.Case(true, fmt.Sprintf("(CRun %s %s [(30000000000%%Z, 1000000000000%%Z, 1000000000000%%Z)] [(%s, %d, %s, [])])",
+		vCfg(c), total, vBool(ml.MustRefuse()), gcs, vBool(!ml.lastGCDone.Equal(set))))
+	if class == 0 && ml.usageChecker.memAllocLimit == 0 && ml.usageChecker.memSpikeLimit == 92233720368547758 && !ml.MustRefuse() {
+		out.Stat("witness.limits_wellformed_refuted_reproduced", 1)
+	} else {
+		out.Stat("witness.limits_wellformed_refuted_not_reproduced", 1)
+	}
+}
+
 func TestVerifC18(t *testing.T) {
 	out := vOpen()
 	defer out.Close()
+	vWitnessReplay(out)
 	vConfigCases(out, vNewRand(1801), vBudget(350, 20))
 	vRunCases(out, vNewRand(1802), vBudget(350, 20))
+	vRunGrid(out)
 	vLifeCases(out, vNewRand(1803))
 	vLifeConcurrent(out, vNewRand(1804))
+	vSysCases(out, vNewRand(1805), vBudget(80, 15))
 }
